@@ -66,26 +66,26 @@ private:
     }
 };
 
-// although iterator_adaptor defines these, the default implementation computes distance and compares for zero.
-// it is often faster to just apply the relation operator to the base
+// The relation is decided by the signed distance in steps. Comparing the bases is not enough: the base may
+// itself be a step iterator (the y iterator of a view with an x step), whose own ordering follows its step sign.
 template <typename D,typename Iterator,typename SFn> inline
 bool operator>(const step_iterator_adaptor<D,Iterator,SFn>& p1, const step_iterator_adaptor<D,Iterator,SFn>& p2) {
-    return p1.step()>0 ? p1.base()> p2.base() : p1.base()< p2.base();
+    return (p1 - p2) > 0;
 }
 
 template <typename D,typename Iterator,typename SFn> inline
 bool operator<(const step_iterator_adaptor<D,Iterator,SFn>& p1, const step_iterator_adaptor<D,Iterator,SFn>& p2) {
-    return p1.step()>0 ? p1.base()< p2.base() : p1.base()> p2.base();
+    return (p2 - p1) > 0;
 }
 
 template <typename D,typename Iterator,typename SFn> inline
 bool operator>=(const step_iterator_adaptor<D,Iterator,SFn>& p1, const step_iterator_adaptor<D,Iterator,SFn>& p2) {
-    return p1.step()>0 ? p1.base()>=p2.base() : p1.base()<=p2.base();
+    return (p1 - p2) >= 0;
 }
 
 template <typename D,typename Iterator,typename SFn> inline
 bool operator<=(const step_iterator_adaptor<D,Iterator,SFn>& p1, const step_iterator_adaptor<D,Iterator,SFn>& p2) {
-    return p1.step()>0 ? p1.base()<=p2.base() : p1.base()>=p2.base();
+    return (p2 - p1) >= 0;
 }
 
 template <typename D,typename Iterator,typename SFn> inline
